@@ -17,6 +17,7 @@ TReset == /\ Is("Reset")
           /\ engine' = E.engine
           /\ status' = [e \in EP |-> "unknown"]
           /\ down' = [e \in EP |-> FALSE]
+          /\ models' = [e \in EP |-> IF e \in DOMAIN E.models THEN {E.models[e][i] : i \in 1..Len(E.models[e])} ELSE {}]
           /\ ebFail' = [e \in EP |-> 0] /\ ebOpen' = [e \in EP |-> FALSE]
           /\ rq' = <<>> /\ gauge' = [e \in EP |-> 0]
           /\ cnt' = [e \in EP |-> [ok |-> 0, fail |-> 0]]
@@ -24,14 +25,14 @@ TReset == /\ Is("Reset")
 \* a health round was run and the repository now says E.st
 THealth == /\ Is("Health")
            /\ status' = [e \in EP |-> StOf(E.st, e)]
-           /\ UNCHANGED <<engine, down, ebFail, ebOpen, rq, gauge, cnt>> /\ Consume
+           /\ UNCHANGED <<engine, down, models, ebFail, ebOpen, rq, gauge, cnt>> /\ Consume
 \* the repository as polled after a request: must equal the specification's view (C04: a connection-level
 \* failure takes the endpoint out of rotation, nothing else changes a status)
 TRepo == /\ Is("Repo") /\ \A e \in EP : status[e] = StOf(E.st, e)
          /\ \A r \in Reqs : rq[r].phase = "done"
          /\ UNCHANGED vars /\ l' = l + 1
 TDown == Is("Down") /\ SetDown(E.e, E.d) /\ Consume
-TClientSend == Is("ClientSend") /\ Arrive(E.r, E.route) /\ Consume
+TClientSend == Is("ClientSend") /\ Arrive(E.r, E.route, E.model) /\ Consume
 TBackendRecv == /\ Is("BackendRecv")
                 /\ AttemptStart(E.r, E.e, E.kind, E.pst, E.pn, E.pk, E.pb, E.sig)
                 /\ rq'[E.r].att = E.a
